@@ -274,6 +274,61 @@ func TestC07(t *testing.T) {
 	harness.NonTrivialDistinct(phi - plo)
 	harness.Exhaustive(subC07Foreign.Name, fmt.Sprintf("all %d ordered pairs (decoder T, foreign kind U) over the 14 typed kinds plus raw, %d generated U-packets each", len(pairs), perPair))
 
+	// (b') T-shaped foreign packets: a valid T encoding whose header is rewritten to every other
+	// (PT, FMT) cell. Whenever the result is a well-formed packet of the cell's kind according to
+	// the reference decoder (a "polyglot"), T's decoder must reject it. Random foreign packets
+	// never satisfy T's body checks (REMB's identifier, exact lengths), so a weakened type guard
+	// would hide behind them; these frames pass every body check by construction.
+	perKind := harness.Scale(2, 12)
+	var nPoly, nWellFormed int64
+	for ti, T := range m.TypedKinds {
+		if ti%harness.Cfg.NShards != harness.Cfg.Shard {
+			continue
+		}
+		for j := 0; j < perKind; j++ {
+			g := rapid.Custom(func(rt *rapid.T) []byte {
+				p := c06Readable(gen.PacketOf(rt, T))
+				shrinkBig(p)
+				if T == m.KXR && len(p.XR.Blocks) > 2 {
+					p.XR.Blocks = p.XR.Blocks[:2]
+				}
+				e, err := m.Encode(p, &m.EncOpts{D: gen.PionDialect})
+				if err != nil {
+					panic(err)
+				}
+				return e.B
+			})
+			base1 := g.Example(base + 2_000_000 + ti*64 + j)
+			if len(base1) > 600 {
+				continue
+			}
+			ownPT, ownCount := base1[1], base1[0]&0x1f
+			for cell := 0; cell < 8192; cell++ {
+				pt, count := uint8(cell>>5), uint8(cell&31)
+				U := m.Dispatch(pt, count, m.Strict)
+				if U == T || (pt == ownPT && count == ownCount) {
+					continue
+				}
+				f := append([]byte(nil), base1...)
+				f[0] = f[0]&0xE0 | count
+				f[1] = pt
+				nPoly++
+				if _, err := m.DecodeFrame(f, U, m.Strict); err != nil {
+					continue // not a well-formed packet of the other kind
+				}
+				nWellFormed++
+				c := c07Pair{T: T, U: U, Frame: f}
+				if err := subC07Foreign.Oracle(c, nil); err != nil {
+					subC07Foreign.Check(t, c)
+				}
+			}
+		}
+	}
+	harness.Eval(subC07Foreign.Name+"/T-shaped-foreign", nPoly)
+	harness.NonTrivialDistinct(nWellFormed)
+	harness.Class("T-shaped-foreign-frames-well-formed-as-other-kind", nWellFormed)
+	harness.Exhaustive(subC07Foreign.Name+"/T-shaped-foreign", fmt.Sprintf("%d valid encodings per typed kind x all 8192 (PT, FMT) headers; frames the reference accepts as a packet of the other kind must be rejected", perKind))
+
 	// (c) own output comes back as the same type
 	harness.RapidCheck(t, harness.Scale(1500, 12000), 71, func(rt *rapid.T) {
 		c := valCase{P: gen.Packet(rt)}
